@@ -9,11 +9,14 @@ import (
 	"io"
 	"os"
 	"os/exec"
+	"os/signal"
 	"path/filepath"
 	"runtime"
 	"sort"
 	"strings"
 	"sync"
+	"sync/atomic"
+	"syscall"
 	"testing"
 	"time"
 
@@ -1001,9 +1004,21 @@ func crashOnce(w *World, mode string, victim int, heights uint64, cut int, walVa
 var dbgCrash bool
 
 // TestCrashSweep: every cut of the victim's durable-operation script, both WAL tail variants.
+// selfKills counts SIGTERMs the process received: consensus sends one to its own process when ApplyBlock fails
+// (cmn.Kill, "please restart node"); in a test process that would end the whole sweep
+var selfKills int32
+
 func TestCrashSweep(t *testing.T) {
 	res := mbt.NewResult()
 	defer res.Write()
+	sigc := make(chan os.Signal, 16)
+	signal.Notify(sigc, syscall.SIGTERM)
+	defer signal.Stop(sigc)
+	go func() {
+		for range sigc {
+			atomic.AddInt32(&selfKills, 1)
+		}
+	}()
 	w := NewWorld([]int64{1, 1, 1, 1})
 	victim := mbt.EnvInt("CRASH_VICTIM", 1)
 	heights := uint64(mbt.EnvInt("CRASH_HEIGHTS", 3))
@@ -1051,7 +1066,21 @@ func TestCrashSweep(t *testing.T) {
 			go func() {
 				defer wg.Done()
 				for j := range ch {
-					o := crashOnce(w, mode, victim, heights, j.cut, j.v, ops, scratch)
+					// one kill + restart + continuation, under a wall-clock watchdog: a restart that never returns (a
+					// start-up or a handler that blocks for good) is an outcome, not a dead driver
+					done := make(chan crashOutcome, 1)
+					go func() { done <- crashOnce(w, mode, victim, heights, j.cut, j.v, ops, scratch) }()
+					var o crashOutcome
+					select {
+					case o = <-done:
+					case <-time.After(100 * time.Second):
+						o = crashOutcome{Mode: mode, Cut: j.cut, WalVariant: j.v, Op: ops[j.cut-1], Window: windowOf(ops, j.cut)}
+						o.ModelH, o.ModelStep = modelPos(ops, j.cut)
+						o.StartErr = "the restarted validator (or the continuation with it) did not return within 100 seconds"
+					}
+					if n := atomic.LoadInt32(&selfKills); n > 0 && o.StartErr == "" && o.FinalH <= o.NetH {
+						o.StartErr = "the restarted node sent SIGTERM to its own process (ApplyBlock failed: cmn.Kill) and never caught up"
+					}
 					mu.Lock()
 					outs = append(outs, o)
 					mu.Unlock()
